@@ -51,6 +51,11 @@ VARIANTS = {
   fault('image-title-conditional', F(ST, 'Image.__init__', '        self.title = EscapeSequence.strip(match.group(3))\n', "        if match.group(3):\n            self.title = EscapeSequence.strip(match.group(3))\n"), 'R-RENDER-TOTAL'),
  ],
  'C03': [
+  fault('listitem-drop-backstep', F(BT, 'ListItem.read', "                if newline_count:\n                    lines.backstep()\n                    del line_buffer[-newline_count:]\n                break\n",
+                                   "                if newline_count:\n                    del line_buffer[-newline_count:]\n                break\n"), 'R-LOOSE-SIGNAL'),
+  fault('footnote-backtrack-one-line', F(BT, 'Footnote.read', "lines._index -= string[offset:].count('\\n')", "lines._index -= 1"), 'R-DEF-ACCOUNT'),
+  fault('empty-item-marker-before-interrupt', F(BT, 'ListItem.read', "                if (next_line is not None\n                        and not any(token_type.check_interrupts_paragraph(lines) for token_type in breaking_tokens)):\n",
+                                                "                if next_line is not None:\n"), 'R-INT-PRECEDENCE'),
   fault('html-cond-7-interrupts', F(BT, 'HtmlBlock.check_interrupts_paragraph', 'return html_block and html_block != 7', 'return html_block'), 'R-INT-COND'),
   fault('list-any-number-interrupts', F(BT, 'List.check_interrupts_paragraph', "return not leader[0].isdigit() or leader in ['1.', '1)']", 'return True'), 'R-INT-COND'),
   fault('list-blank-item-interrupts', F(BT, 'List.check_interrupts_paragraph', "            if not content.strip() == '':\n                return", "            if True:\n                return"), 'R-INT-COND'),
@@ -103,6 +108,8 @@ VARIANTS = {
   fault('opener-flag-swapped', F(CT, 'Delimiter.__init__', 'self.open = is_opener(start, end, string)', 'self.open = is_closer(start, end, string)'), 'R-FLANK-WIRED'),
  ],
  'C07': [
+  fault('reference-unescaped-twice', F(ST, 'Link.__init__', 'if self.dest_type in _reference_dest_types:', 'if self.dest_type in ():'), 'R-DEF-VALUE'),
+  fault('undefined-full-reference-falls-to-shortcut', F(CT, 'match_link_image', "                return match\n        return None\n    # shortcut footnote link: [dest]", "                return match\n    # shortcut footnote link: [dest]"), 'R-LITERAL-FALLBACK'),
   fault('setext-inline-in-block-phase', F(BT, 'Paragraph.read', 'return SetextHeading, line_buffer', 'return SetextHeading, SetextHeading(list(line_buffer)).children and line_buffer'), 'R-PHASE'),
   fault('lower-instead-of-casefold', F(CT, 'normalize_label', ".casefold()", ".lower()"), 'R-LABEL-AGREE'),
   fault('no-whitespace-collapse', F(CT, 'normalize_label', "' '.join(text.split()).casefold()", "text.strip().casefold()"), 'R-LABEL-AGREE'),
@@ -114,6 +121,7 @@ VARIANTS = {
   fault('make_tokens-before-block-phase', F(BK, 'tokenize', 'return make_tokens(tokenize_block(iterable, token_types))', 'return [t for line in iterable for t in make_tokens(tokenize_block([line], token_types))]'), 'R-PHASE'),
  ],
  'C08': [
+  fault('render-dispatch-falls-back', F(BR, 'BaseRenderer.render', 'return self.render_map[token.__class__.__name__](token)', 'return self.render_map.get(token.__class__.__name__, self.render_raw_text)(token)'), 'R-RAW-ONLY-HTML'),
   fault('image-src-raw', F(HR, 'HtmlRenderer.render_image', 'template.format(self.escape_url(token.src),', 'template.format(token.src,'), ('R-HOLE', 'Image.src')),
   fault('mailto-raw', F(HR, 'HtmlRenderer.render_auto_link', "'mailto:{}'.format(self.escape_url(token.target))", "'mailto:{}'.format(token.target)"), ('R-HOLE', 'AutoLink.target')),
   fault('link-title-raw', F(HR, 'HtmlRenderer.render_link', "title = ' title=\"{}\"'.format(html.escape(token.title))", "title = ' title=\"{}\"'.format(token.title)"), ('R-HOLE', 'Link.title')),
@@ -128,6 +136,7 @@ VARIANTS = {
   fault('alt-text-markup', F(HR, 'HtmlRenderer.render_image', 'self.render_to_plain(token), title)', 'self.render_inner(token), title)'), 'R-HOLE'),
  ],
  'C09': [
+  fault('assembled-lines-rstripped', F(MR, 'MarkdownRenderer.fragments_to_lines', 'yield current_line + lines[0]', 'yield (current_line + lines[0]).rstrip()'), 'R-ASSEMBLY'),
   fault('info-string-dropped', F(MR, 'MarkdownRenderer.render_fenced_code_block', 'yield indentation + token.delimiter + token.info_string', 'yield indentation + token.delimiter'), ('R-SPELL-USED', 'info_string')),
   fault('padding-not-retained', F(ST, 'InlineCode.__init__', '        self.padding = " " if not content.isspace() and content.startswith(" ") and content.endswith(" ") else ""\n        if self.padding:',
                                   '        padding = " " if not content.isspace() and content.startswith(" ") and content.endswith(" ") else ""\n        if padding:'), 'R-SPELL-SET'),
@@ -138,6 +147,7 @@ VARIANTS = {
   fault('leader-normalised', F(MR, 'MarkdownRenderer.render_list_item', '" " * indentation + token.leader + " " * (prepend - len(token.leader) - indentation)', '" " * indentation + "-" + " " * (prepend - 1 - indentation)'), ('R-SPELL-USED', 'leader')),
  ],
  'C10': [
+  fault('setext-underline-clipped', F(MR, 'MarkdownRenderer.render_setext_heading', 'yield token.underline', 'yield token.underline[:max_line_length]'), 'R-BUDGET'),
   fault('quote-budget-off-by-one', F(MR, 'MarkdownRenderer.render_quote', 'max_line_length - 2 if', 'max_line_length - 1 if'), 'R-BUDGET'),
   fault('list-budget-ignores-prefix', F(MR, 'MarkdownRenderer.render_list_item', 'max_line_length - prepend if', 'max_line_length - indentation if'), 'R-BUDGET'),
   fault('budget-truthiness', F(MR, 'MarkdownRenderer.render_quote', 'if max_line_length is not None else None', 'if max_line_length else None'), 'R-SENTINEL'),
@@ -149,6 +159,7 @@ VARIANTS = {
                                "                if len(current_line) <= max_line_length:\n                    current_line = test\n                else:\n                    yield current_line\n                    current_line = word"), 'R-FILL'),
  ],
  'C11': [
+  fault('core-find-fast-path', F(ST, 'CoreTokens.find', "        return core_tokens.find_core_tokens(string, token._root_node)", "        if '*' not in string and '_' not in string and '[' not in string and '`' not in string:\n            return []\n        return core_tokens.find_core_tokens(string, token._root_node)"), 'D-HANDOFF'),
   fault('quote-restore-not-in-finally', F(BT, 'Quote.read', "        try:\n            parse_buffer = tokenizer.tokenize_block(line_buffer, _token_types, start_line=start_line)\n        finally:\n            Paragraph.parse_setext = True\n",
                                           "        parse_buffer = tokenizer.tokenize_block(line_buffer, _token_types, start_line=start_line)\n        Paragraph.parse_setext = True\n"), 'D-OVERRIDE'),
   fault('charref-restore-not-in-finally', F(SK, 'tokenize', "    finally:\n        html._charref = _stdlib_charref", "    except KeyError:\n        pass\n    html._charref = _stdlib_charref"), 'D-OVERRIDE'),
@@ -185,6 +196,8 @@ VARIANTS = {
   fault('nested-start-line-dropped', F(BT, 'Quote.read', 'tokenizer.tokenize_block(line_buffer, _token_types, start_line=start_line)', 'tokenizer.tokenize_block(line_buffer, _token_types)'), 'R-ORIGIN'),
  ],
  'C14': [
+  fault('table-delimiter-prefix-only', F(BT, 'Table.read', 'cls.delimiter_row_pattern.fullmatch(line_buffer[1])', 'cls.delimiter_row_pattern.match(line_buffer[1])'), 'R-TABLE-DELIM'),
+  fault('strikethrough-one-tilde', S(ST, 'pattern = re.compile(r"(?<!\\\\)(?:\\\\\\\\)*~~(.+?)~~", re.DOTALL)', 'pattern = re.compile(r"(?<!\\\\)(?:\\\\\\\\)*~{1,2}(.+?)~{1,2}", re.DOTALL)'), 'R-SPAN-INERT'),
   fault('thematic-4-spaces', S(BT, r"pattern = re.compile(r' {0,3}(?:([-_*])\s*?)(?:\1\s*?){2,}$')", r"pattern = re.compile(r' {0,4}(?:([-_*])\s*?)(?:\1\s*?){2,}$')"), ('R-START-INCL', 'ThematicBreak')),
   fault('thematic-two-chars', S(BT, r"(?:\1\s*?){2,}$')", r"(?:\1\s*?){1,}$')"), ('R-START-INCL', 'ThematicBreak')),
   fault('heading-no-space-needed', S(BT, r"(#{1,6})(?:\n|\s+?(.*?)(\n|\s+?#+\s*?$))", r"(#{1,6})(?:\n|\s*?(.*?)(\n|\s+?#+\s*?$))"), ('R-START-INCL', 'Heading')),
@@ -222,6 +235,7 @@ VARIANTS = {
   fault('nest-ignores-parse_inner', F(SK, 'ParseToken.append_child', "        if self.cls.parse_inner:\n            if not self.children:", "        if True:\n            if not self.children:"), 'R-EVAL'),
  ],
  'C17': [
+  fault('math-pattern-takes-backslashes', S('mistletoe/latex_token.py', "pattern = re.compile(r'(\\${1,2})([^$]+?)\\1')", "pattern = re.compile(r'(?:\\\\\\\\)*(\\${1,2})([^$]+?)\\1')"), 'R-TEX-MATH'),
   fault('backslash-unescaped', S(LR, "    '\\\\': '\\\\textbackslash{}',\n", ''), 'R-TEX-SANITISER'),
   fault('percent-unescaped-in-url', F(LR, 'LaTeXRenderer.escape_url', "return quoted_url.replace('%', '\\\\%') \\\n                         .replace('#', '\\\\#')", "return quoted_url.replace('#', '\\\\#')"), 'R-TEX-SANITISER'),
   fault('link-target-raw', F(LR, 'LaTeXRenderer.render_link', 'target=self.escape_url(token.target)', 'target=token.target'), ('R-TEX-HOLE', 'Link.target')),
